@@ -14,7 +14,7 @@ use slicec::grammar::{CustomType, Enum, Enumerator, Field, Interface, Operation,
 pub fn meta(m: &mut PropMeta) {
     m.rule = "three nested module levels A, A::B, A::B::C (plus sibling A::D and unrelated Z), each in its own file; at each level an entity named X of kind {none, struct, enum, custom, interface, alias->primitive, alias->the X one level out} (7^3); a referencing element in the module at level 1..3 in position {field, parameter, alias target, sequence element, dictionary value, interface base, enum underlying}; every spelling of the reference {X, C::X, B::C::X, A::B::C::X, ::A::B::C::X, ::X, B::X, D::X, ::A::D::X, S::f (member path), B (module), Nope}; level files listed in all 6 orders: complete product. Plus alias chains of length 1..4 with a distinct attribute on each link and on the use site, ending in each type form, links spread over two modules, used in 3 positions. Oracle: reference resolver written from the statement (innermost module outwards, then global; '::' global only; first name hit decides; wrong kind = error; aliases replaced by final target, attributes accumulated use-site first then link by link). Reference says bound: compilation error-free and the whole observed AST (with the scoped identifier and kind of every bound definition and the accumulated attributes) equals the model; reference says error: an Error with code E033/E017/E019 is reported. Every definition, field, enumerator and operation of an accepted program is retrieved by its fully scoped name through Ast::find_element. A case = one (kinds, level, position) with all spellings x orders inside; non-trivial = some spelling binds to an entity that is not the first candidate looked at, or must be rejected.";
     m.explanation = "complete product of scope arrangements x reference spellings x positions x file orders against a reference resolver";
-    m.quick_bound = "7^3 kind assignments x 3 levels x 7 positions x 12 spellings x 6 file orders (518,616 compilations); alias chains <= 4";
+    m.quick_bound = "7^3 kind assignments x 3 levels x 9 positions x 12 spellings x 6 file orders (518,616 compilations); alias chains <= 4";
     m.thorough_bound = "same (the product is complete)";
     m.quick_cap_s = 90.0;
 }
@@ -22,7 +22,7 @@ pub fn meta(m: &mut PropMeta) {
 const LEVELS: [&str; 3] = ["A", "A::B", "A::B::C"];
 const SPELLINGS: [&str; 12] = ["X", "C::X", "B::C::X", "A::B::C::X", "::A::B::C::X", "::X", "B::X", "D::X", "::A::D::X", "S::f", "B", "Nope"];
 const N_KINDS: u64 = 7;
-const N_POS: u64 = 7;
+const N_POS: u64 = 9;
 const ORDERS: [[usize; 3]; 6] = [[0, 1, 2], [0, 2, 1], [1, 0, 2], [1, 2, 0], [2, 0, 1], [2, 1, 0]];
 
 fn x_entity(kind: u64, level: usize) -> Option<MDef> {
@@ -55,6 +55,9 @@ fn user(pos: u64, spelling: &str) -> MDef {
         4 => st("U", vec![MField::new("X", MType::prim("int32")), MField::new("f", MType::dict(MType::prim("int32"), t))]),
         5 => iface("U", vec![t], vec![]),
         6 => en("U", Some(t), vec![enumerator("E0")]),
+        // the two arms of a result type are patched through slots of their own
+        7 => st("U", vec![MField::new("f", MType::result(MType::prim("bool"), t)), MField::new("X", MType::prim("bool"))]),
+        8 => iface("U", vec![], vec![op("o", vec![], MRet::Single { tag: None, stream: false, ty: MType::result(t, MType::prim("string")).opt() })]),
         _ => unreachable!(),
     }
 }
@@ -212,7 +215,7 @@ impl ScopeProduct {
 }
 impl Family for ScopeProduct {
     fn name(&self) -> String {
-        "scopes/7^3 kinds x 3 levels x 7 positions (x 12 spellings x 6 file orders inside each case)".into()
+        "scopes/7^3 kinds x 3 levels x 9 positions (x 12 spellings x 6 file orders inside each case)".into()
     }
     fn len(&self) -> u64 {
         N_KINDS * N_KINDS * N_KINDS * 3 * N_POS
@@ -337,6 +340,8 @@ impl RelativeChains {
         // modules P, Q, R each define T (of a different kind) and R defines nothing else; chain: U::use -> P::X1 -> Q::X2 -> [Q|R]::X3 -> T
         let len = (idx % 3) as usize + 1; // number of alias links after X1
         let usepos = ((idx / 3) % 3) as usize;
+        // how the last link writes the bare name: alone, or nested inside an anonymous type
+        let end = ((idx / 9) % 4) as usize;
         let mods = ["P", "Q", "R", "P::In"];
         let mut files: Vec<MFile> = mods.iter().map(|m| MFile::module(m)).collect();
         files[0].defs.push(st("T", vec![]));
@@ -347,7 +352,15 @@ impl RelativeChains {
         let homes = [0usize, 1, 2, 3];
         for k in 0..=len {
             let home = homes[k % 4];
-            let target = if k == len { MType::named("T") } else { MType::named(&format!("::{}::X{}", mods[homes[(k + 1) % 4]], k + 2)) };
+            let bare = || MType::named("T");
+            let target = if k == len {
+                match end {
+                    0 => bare(),
+                    1 => MType::seq(bare()),
+                    2 => MType::dict(MType::prim("string"), bare().opt()),
+                    _ => MType::result(bare(), MType::seq(bare())),
+                }
+            } else { MType::named(&format!("::{}::X{}", mods[homes[(k + 1) % 4]], k + 2)) };
             // intermediate links written relatively where that is possible: from P::In, "X.." of P is visible
             files[home].defs.push(alias(&format!("X{}", k + 1), target.attr(MAttr::with("cs::k", vec![MArg::Ident(format!("k{k}"))]))));
         }
@@ -365,19 +378,19 @@ impl RelativeChains {
 }
 impl Family for RelativeChains {
     fn name(&self) -> String {
-        "relative-alias-chains/chains of 2..4 links across 4 modules that each define a different T; the last link says 'T' x 3 use positions x 2 file orders".into()
+        "relative-alias-chains/chains of 2..4 links across 4 modules that each define a different T; the last link says 'T', bare or nested in Sequence / Dictionary value / Result arms x 3 use positions x 2 file orders".into()
     }
     fn len(&self) -> u64 {
-        3 * 3 * 2
+        3 * 3 * 4 * 2
     }
     fn describe(&self, idx: u64) -> Value {
-        let p = Self::build(idx % 9);
+        let p = Self::build(idx % 36);
         let rendered = render_program(&p, &Layout::uniform(Sep::Space, Commas::None));
-        json!({"files": rendered.iter().map(|r| r.text.clone()).collect::<Vec<_>>(), "reversed_file_order": idx >= 9})
+        json!({"files": rendered.iter().map(|r| r.text.clone()).collect::<Vec<_>>(), "reversed_file_order": idx >= 36})
     }
     fn run(&self, idx: u64) -> CaseOut {
-        let mut p = Self::build(idx % 9);
-        if idx >= 9 {
+        let mut p = Self::build(idx % 36);
+        if idx >= 36 {
             p.reverse();
         }
         let mut out = CaseOut::new(hash_str(&format!("c03rc{idx}")));
